@@ -4,17 +4,18 @@ digest construction against the BIP143/BIP341 definitions over an uninterpreted 
 import z3
 import stubs, sesslib, refscript as R, refexec
 import C01 as base
+import sighashlib
 from irsym import is_sym
 from core import mkres, EncoderMismatch
 
 ID = 'C02'
 TITLE = 'CHECKSIG/CHECKSIGVERIFY/CHECKMULTISIG(VERIFY)/CHECKSIGADD one-step differential with an uninterpreted signature oracle (encoding rules, flag-selected errors, in-order multisig matching, FindAndDelete, tapscript weight), opcode-position bookkeeping, HasValidOps domain'
-TUS = base.TUS; SHIMS = base.SHIMS; NATIVE_TUS = base.NATIVE_TUS
-FUNCTIONS = ['EvalChecksig', 'EvalChecksigPreTapscript', 'EvalChecksigTapscript', 'OP_CHECKMULTISIG loop', 'CheckSignatureEncoding', 'IsValidSignatureEncoding', 'IsDefinedHashtypeSignature', 'CheckPubKeyEncoding',
+TUS = base.TUS; SHIMS = base.SHIMS + ['sighash']; NATIVE_TUS = base.NATIVE_TUS
+FUNCTIONS = ['SignatureHash (legacy + BIP143)', 'CTransactionSignatureSerializer', 'SignatureHashSchnorr (BIP341/342)', 'PrecomputedTransactionData::Init', 'EvalChecksig', 'EvalChecksigPreTapscript', 'EvalChecksigTapscript', 'OP_CHECKMULTISIG loop', 'CheckSignatureEncoding', 'IsValidSignatureEncoding', 'IsDefinedHashtypeSignature', 'CheckPubKeyEncoding',
              'FindAndDelete', 'StepScript(InterpreterEnv&) opcode_pos', 'CScript::HasValidOps']
 ASSUMPTIONS = base.ASSUMPTIONS + ['the ECDSA/Schnorr verdict is an uninterpreted function of (signature, key, scriptCode | leaf hash+code separator position, sigversion): holds for every checker, hence for the real one',
                                   'CPubKey::CheckLowS is an uninterpreted predicate of the signature bytes', 'elliptic-curve arithmetic of libsecp256k1 and the lax DER parser are outside the claim']
-OUTSIDE = ['signatures longer than 10 bytes other than the 71/72/73-byte DER sizes', 'more than 3 keys except the 20/21 boundary', 'digest construction (SignatureHash*) is decided by the sighash obligations of this check']
+OUTSIDE = ['signatures longer than 10 bytes other than the 71/72/73-byte DER sizes', 'more than 3 keys except the 20/21 boundary', 'digests: transactions with more than 2 inputs / 2 outputs (3 in thorough), scripts longer than 3 bytes', 'the hand-over checker -> SignatureHash (hash type byte extraction, amount) inside GenericTransactionSignatureChecker']
 BOUNDS = {'quick': 'sig lengths {0,1,8,9,10}, key lengths {0,1,32,33,65}; multisig n-of-m for m<=2 (+ key counts 20/21 with empty keys); scriptCode tail of 0/2/3 bytes (FindAndDelete pattern may match); flags, nOpCount, weight, code separator position, leaf hash symbolic',
           'thorough': 'as quick plus sig lengths 71..73, m<=3'}
 
@@ -81,6 +82,7 @@ def obligations(tier, seed):
                 obs.append(dict(kind='opos', name='opos/op%02x/sv%d/vf%d-%s' % (o, sv, vf[0], vf[1]), op=o, sv=sv, vf=vf))
     for o in range(0xb0, 0x100): obs.append(dict(kind='validops', name='validops/op%02x' % o, op=o))
     for L in (1, 2, 3): obs.append(dict(kind='validops', name='validops/sym%d' % L, op=None, L=L))
+    obs += sighashlib.obligations(tier)
     return obs
 
 def build(ob, V=None):
@@ -117,6 +119,7 @@ def key_fn(ob):
     return k
 
 def run(E, ob):
+    if ob['kind'] in ('sighash', 'schnorr'): return sighashlib.run(E, ob)
     if ob['kind'] == 'opos': return run_opos(E, ob)
     if ob['kind'] == 'validops': return run_validops(E, ob)
     req, S, inputs, assume = build(ob)
@@ -189,6 +192,7 @@ def concrete(ob, cex):
     return V
 
 def replay(lib, ob, cex):
+    if ob['kind'] in ('sighash', 'schnorr'): return sighashlib.replay(lib, ob, cex)
     if ob['kind'] == 'validops':
         import hlib
         script = [ob['op']] if ob['op'] is not None else cex['script']
@@ -209,4 +213,4 @@ def replay(lib, ob, cex):
     io = impl_outcome(rep, ob['mode'])
     return None, 'native: %s (oracle-dependent; compare with the reference by hand)' % sesslib.short(io)
 
-def validate(E, lib): return base.validate(E, lib)
+def validate(E, lib): return base.validate(E, lib) + sighashlib.validate(E, lib)
